@@ -23,7 +23,7 @@ pub fn gen_disp_scenario(r: &mut Rng, k: usize) -> DispScenario {
     if k % 9 == 4 { return gen_chase_scenario(r, k); }
     let family = if r.chance(0.7) { 0 } else { 1 };
     let sidings = *r.pick(&[0usize, 1, 1, 2, 2, 3, 3, 4]);
-    let foul = r.chance(0.35);
+    let foul = r.chance(0.55);
     let shuffle = r.chance(0.5);
     let sp = gen_spec(r, family, sidings, foul, shuffle);
     let n_tr = match k % 10 { 0 => 1, 1 | 2 => 2, 3 | 4 => 3, 5 | 6 => 4, 7 => 5, 8 => 6, _ => 8 }.min(1 + 2 * sidings.max(1) + 3);
